@@ -114,6 +114,13 @@ func genFmtCase(t *rapid.T, disagree bool) FmtCase {
 			"##!=>   s0",
 			"##!<  junk",
 			"##!< ##!> assemble",
+			"\x0cfoo",
+			"\x0b##!+ i",
+			"\u00a0baz",
+			"\x0c##!> assemble",
+			"\u2003##!<",
+			"\x0c",
+			"\u00a0",
 		}).Draw(t, "disagreeline")
 		pos := rapid.IntRange(0, len(c.Lines)).Draw(t, "dpos")
 		l := ragen.Line{K: ragen.KRaw, T: raw, Ind: rapid.SampledFrom([]string{"", "  ", "\t"}).Draw(t, "dind")}
